@@ -86,3 +86,47 @@ def run(chk, exceptions):
     chk.floor(RULE + ":sites", total, 9)
     chk.need(textual == total, "R-LABEL-VALID analysed %d label_entry_of call sites but the sources outside CodeHolder contain %d "
                                "(a new site is not covered by lib/labelvalid.py SITES)" % (total, textual))
+
+
+BOUND_UNITS = [("asmjit/core/builder.cpp", r"asmjit::BaseBuilder::[A-Za-z_0-9]+$"),
+               ("asmjit/core/codeholder.cpp", r"asmjit::CodeHolder[A-Za-z_0-9:]*$"),
+               ("asmjit/core/emitter.cpp", r"asmjit::BaseEmitter::[A-Za-z_0-9]+$")]
+
+
+def run_bound_strict(chk):
+    R = "R-LABEL-BOUND-STRICT"
+    chk.rule(R, "every comparison of a label id / label index with the number of labels (label_count(), _label_entries.size(), _label_nodes.size()) "
+                "is the strict form - `id >= count` rejects, `id < count` accepts; `id > count` / `id <= count` would let the id one past the end through")
+    n = 0
+    for unit, rex in BOUND_UNITS:
+        f = chk.facts(unit, funcs=rex)
+        from .cfg import load_functions
+        for fn in load_functions(f):
+            for i, x in sorted(fn.ex.items()):
+                if x["k"] != "binop" or x["op"] not in ("<", "<=", ">", ">=") or x.get("m") == "ASMJIT_ASSERT":
+                    continue
+
+                def is_count(e):
+                    y = fn.e(fn.strip(e))
+                    while y and y["k"] in ("cast", "paren"):
+                        y = fn.e(y["sub"])
+                    if not y or y["k"] != "mcall":
+                        return False
+                    if y.get("cn") == "label_count":
+                        return True
+                    return y.get("cn") == "size" and re.search(r"_label_(entries|nodes)\b", fn.text(y.get("obj", 0)) or "") is not None
+
+                def is_index(e):
+                    y = fn.e(fn.strip(e))
+                    return y is not None and y["k"] == "ref" and y.get("dk") in ("local", "parm")
+                if is_count(x["rhs"]) and is_index(x["lhs"]):
+                    ok = x["op"] in (">=", "<")
+                elif is_count(x["lhs"]) and is_index(x["rhs"]):
+                    ok = x["op"] in ("<=", ">")
+                else:
+                    continue
+                n += 1
+                chk.ob(R, "%s|%s" % (fn.name.replace("asmjit::", ""), " ".join(fn.text(i).split())[:44]), ok, loc=fn.loc(i),
+                       detail="`%s` treats the id equal to the number of labels as valid: the entry one past the end is accessed / created" % " ".join(fn.text(i).split())[:70],
+                       key="labelbound|%s" % fn.name.replace("asmjit::", ""))
+    chk.floor(R + ":comparisons", n, 3)
